@@ -153,6 +153,12 @@ func Amounts(c *Config, gs *pf.GameState) []int64 {
 		}
 		set[math.MinInt64] = true
 		set[math.MaxInt64] = true
+	} else if c.Amounts == "edges" {
+		// the magnitude twins: only the edges of the legal range (the graph must stay small when the
+		// stacks are millions of chips deep in distinct amounts)
+		for _, x := range []int64{math.MinInt64, -1, 0, M - 1, M, W + R - 1, W + R, S - w, S, S + 1, math.MaxInt64} {
+			set[x] = true
+		}
 	} else {
 		for _, x := range []int64{math.MinInt64, -S, -1, 0, 1, M - 1, M, W - 1, W, W + 1, W + R - 1, W + R, W + R + 1, (W + R + S) / 2, S - w - 1, S - w, S - 1, S, S + 1, 2 * S, math.MaxInt64} {
 			set[x] = true
